@@ -321,7 +321,9 @@ fn judge(out: &mut Out, rng: &mut Rng, cell: &Cell, c: &Compiled, code_sig: Opti
             // of the source (generated-name suffixes _$_N stripped).
             out.count("entries.function.synthesised_name");
             named_present.insert(name.clone());
-            if name.starts_with("lambda_$_") {
+            // (cl22 command line builds: the frontend optimiser rewrites capture lists — literal captures become () — so the
+            // recorded list is that of the rewritten lambda; not compared there)
+            if name.starts_with("lambda_$_") && !(d == Dialect::Cl22 && cell.build.starts_with("cli")) {
                 if let Some(at) = c.symbols.get(&format!("{k}_arguments")) {
                     // the optimising dialects may add captures of their own (cse_$_N): those are dropped before comparing
                     let recorded = text_v(&strip_gensym(at)).map(|v| match v {
